@@ -2,7 +2,17 @@
 use crate::{prng::*, Args, Out};
 use shopify_function_wasm_api::{Context, Deserialize};
 
-pub const TYPES: [&str; 10] = ["i8", "i16", "i32", "i64", "u8", "u16", "u32", "u64", "usize", "isize"];
+pub const TYPES: [&str; 11] = ["i8", "i16", "i32", "i64", "u8", "u16", "u32", "u64", "usize", "isize", "echo"];
+
+/// The example guest api/examples/echo.rs carries its own copy of the i32 guard; it is compiled in
+/// from the repository so that it is exercised like the macro ("echo" target = Value::Integer or not).
+#[allow(dead_code, unused_imports)]
+mod echo_example { include!("/repo/api/examples/echo.rs");
+    pub fn as_integer(v: &shopify_function_wasm_api::Value) -> Option<Option<i128>> {
+        use shopify_function_wasm_api::Deserialize;
+        match Value::deserialize(v) { Ok(Value::Integer(i)) => Some(Some(i as i128)), Ok(_) => Some(None), Err(_) => None }
+    }
+}
 
 fn des(ty: &str, bits: u64) -> String {
     let mut bytes = vec![0xcb]; bytes.extend_from_slice(&bits.to_be_bytes());
@@ -16,6 +26,7 @@ fn des(ty: &str, bits: u64) -> String {
             "u8" => f::<u8>(&v), "u16" => f::<u16>(&v), "u32" => f::<u32>(&v), "u64" => f::<u64>(&v),
             "usize" => usize::deserialize(&v).ok().map(|x| x as i128),
             "isize" => isize::deserialize(&v).ok().map(|x| x as i128),
+            "echo" => echo_example::as_integer(&v).flatten(),
             _ => panic!("type"),
         }
     });
@@ -51,6 +62,7 @@ pub fn run(a: &Args, out: &mut Out) {
     let mut rng = Rng::new(a.seed);
     let thorough = a.tier == "thorough";
     let mut pats: Vec<u64> = vec![];
+    let mut always: Vec<u64> = vec![];
     let ulp = |b: u64, d: i64| (b as i64 + d) as u64;
     // every power of two +-3 ulp in the whole exponent range (both signs), halves
     for e in 0..2047u64 { let b = e << 52; for d in -3..=3 { pats.push(ulp(b, d)); pats.push(ulp(b, d) | (1 << 63)); } }
@@ -58,8 +70,8 @@ pub fn run(a: &Args, out: &mut Out) {
     for k in [7u32, 8, 15, 16, 31, 32, 63, 64] {
         for v in [2f64.powi(k as i32), 2f64.powi(k as i32) - 1.0, 2f64.powi(k as i32) + 1.0, -(2f64.powi(k as i32)), -(2f64.powi(k as i32)) - 1.0, -(2f64.powi(k as i32)) + 1.0,
                   2f64.powi(k as i32) - 0.5, 2f64.powi(k as i32) - 1.5, -(2f64.powi(k as i32)) - 0.5, -(2f64.powi(k as i32)) + 0.5] {
-            for d in -3..=3 { pats.push(ulp(v.to_bits(), d)); } } }
-    for v in [0.0f64, -0.0, 0.5, -0.5, 1.5, 1e300, -1e300, f64::INFINITY, f64::NEG_INFINITY, f64::MAX, f64::MIN, f64::MIN_POSITIVE, 5e-324, 4503599627370496.0, 9007199254740992.0, 9007199254740993.0] { pats.push(v.to_bits()); }
+            for d in -3..=3 { always.push(ulp(v.to_bits(), d)); } } }
+    for v in [0.0f64, -0.0, 0.5, -0.5, 1.5, 1e300, -1e300, f64::INFINITY, f64::NEG_INFINITY, f64::MAX, f64::MIN, f64::MIN_POSITIVE, 5e-324, 4503599627370496.0, 9007199254740992.0, 9007199254740993.0, 1e-17, -1e-17, 2.2e-16, 1.1e-16] { always.push(v.to_bits()); }
     for i in -300i64..300 { pats.push((i as f64).to_bits()); pats.push((i as f64 + 0.25).to_bits()); }
     let nrand = if thorough { 100_000 } else { 6_000 };
     for _ in 0..nrand { pats.push(rng.next_u64()); }
@@ -68,10 +80,12 @@ pub fn run(a: &Args, out: &mut Out) {
         let v = (m as f64) * 2f64.powi(k as i32 - 40); pats.push(if rng.chance(50) { v.to_bits() } else { (-v).to_bits() }); }
     // NaN inputs panic in input_get today (finding F1 of C08); they are exercised there
     let pats: Vec<u64> = pats.into_iter().filter(|b| !f64::from_bits(*b).is_nan()).collect();
+    let always: Vec<u64> = always.into_iter().filter(|b| !f64::from_bits(*b).is_nan()).collect();
     let mut id = 0usize; let mut evals = 0u64; let mut accepted = std::collections::BTreeSet::<String>::new();
     let step = if thorough { 1 } else { 3 };
     for (ti, ty) in TYPES.iter().enumerate() {
-        let lines: Vec<String> = pats.iter().enumerate().filter(|(i, _)| thorough || (i + ti) % step == 0 || *i > pats.len() - (nrand as usize)).map(|(_, b)| format!("DES {} {:x}", ty, b)).collect();
+        let mut lines: Vec<String> = always.iter().map(|b| format!("DES {} {:x}", ty, b)).collect();
+        lines.extend(pats.iter().enumerate().filter(|(i, _)| thorough || (i + ti) % step == 0 || *i > pats.len() - (nrand as usize)).map(|(_, b)| format!("DES {} {:x}", ty, b)));
         for chunk in lines.chunks(1000) {
             evals += chunk.len() as u64;
             run_lines(out, id, chunk); id += 1;
@@ -80,6 +94,6 @@ pub fn run(a: &Args, out: &mut Out) {
     }
     out.stat("cases", id.into());
     out.stat("evaluations", evals.into());
-    out.stat("patterns", pats.len().into());
-    out.stat("rule", "ten integer targets x doubles: every power of two +-3 ulp over the whole exponent range and both signs, each type's MIN/MAX and +-1, +-0.5 with +-3 ulp neighbours, small integers and quarters, specials, random patterns, random integers of random magnitude; NaNs excluded here (input NaN is C08's finding); distinct_nontrivial = distinct (type, pattern) pairs accepted by the implementation (counted by ./check)".into());
+    out.stat("patterns", (pats.len() + always.len()).into());
+    out.stat("rule", "ten integer targets (+ the echo example's own i32 guard) x doubles: every power of two +-3 ulp over the whole exponent range and both signs, each type's MIN/MAX and +-1, +-0.5 with +-3 ulp neighbours, small integers and quarters, specials, random patterns, random integers of random magnitude; NaNs excluded here (input NaN is C08's finding); distinct_nontrivial = distinct (type, pattern) pairs accepted by the implementation (counted by ./check)".into());
 }
